@@ -99,11 +99,36 @@ def replay(c, variant=""):
     return ev
 
 
+def _var_ids(t):
+    if t["k"] == "v":
+        return {t["id"]}
+    out = set()
+    for f in ("l", "r", "c"):
+        if isinstance(t.get(f), dict):
+            out |= _var_ids(t[f])
+    return out
+
+
+def _rename(t, old, new):
+    if t["k"] == "v":
+        return dict(t, id=new) if t["id"] == old else t
+    return {k: (_rename(v, old, new) if isinstance(v, dict) else v) for k, v in t.items()}
+
+
 def replay_envs(c):
     """the instance as asked in a default process, and - for instances at the top of the tree - asked again in a process whose numpy
     error state is strict (np.seterr(all="raise"), common in numeric applications): acceptance may not depend on it"""
     ev = replay(c)
     out = [ev]
+    if c["expect"] != "apply" and not c["hole"]:
+        # an instance that must be refused because its two variables differ: still refused when they differ by CASE only (x, X)
+        ids = sorted(_var_ids(c["inp"]))
+        if len(ids) == 2 and all(97 <= i <= 122 for i in ids):
+            c4 = dict(c, inp=_rename(c["inp"], ids[1], ids[0] - 32))
+            ev4 = replay(c4)
+            if ev4 is not None and (ev4["applicable"], ev4["outcome"]) != (ev["applicable"], ev["outcome"]):
+                ev4["env"] = "same letter in the other case"
+                out.append(ev4)
     if c["expect"] == "apply" and not c["hole"]:
         ev3 = replay(c, "floatexp")
         if ev3 is not None and (ev3["applicable"], ev3["outcome"]) != (ev["applicable"], ev["outcome"]):
